@@ -191,6 +191,10 @@ fn conv_diags(d: &Diagnostics, tree: Option<&ParseTree>) -> Vec<Diag> {
         .collect()
 }
 
+pub fn conv_diags_pub(d: &Diagnostics, tree: &ParseTree) -> Vec<Diag> {
+    conv_diags(d, Some(tree))
+}
+
 #[derive(Clone, Debug, Serialize, Deserialize, PartialEq, Eq)]
 pub struct SegOut {
     pub name: String,
